@@ -1,11 +1,159 @@
-(** C11: placeholder while the proofs are being written (replaced below). *)
-From Coq Require Import List ZArith.
-From GL Require Import lib.IMapBase model.IMap model.IMapLRU model.legacy.IMapLRULegacy.
-Import ListNotations.
+(** C11: the ordered map and the LRU cache retain nothing beyond live entries.
 
-Example C11_legacy_clear_leaks_sample :
-  map (fun r => length (i_chain (l_map (snd r))))
-      (lc_run_legacy (i_step always_reuse) 4 (mkLru i_new 0%Z)
-         [CGetOrCreate 1 5 true; CClear; CGetOrCreate 1 5 true; CClear; CGetOrCreate 1 5 true; CClear])
-  = [2; 1; 2; 2; 3; 3]%nat.
+    Code: /repo/container/iterable/map.go, /repo/container/lru/ecache.go (post-fix
+    tree, D2 repaired by 103acbd).  Models: model/IMap.v (pointer model L1 of the map;
+    [i_chain s] = the nodes reachable from head following next, what the verif hook
+    VerifWalk counts; [count_deleted s] = how many of them are removed entries
+    ("pinned"); [sum_ref s] = the sum of their reference counters), model/IMapLRU.v
+    (the cache as the calls it makes on the map, run over L1), model/IMapCost.v (First
+    with the fuel of its two loops as parameters), model/legacy/IMapLRULegacy.v (Clear
+    before the fix).  Proofs: proofs/C11_*.v on top of the representation relation of
+    C10 (proofs/C10_*.v).
+
+    [reach ch h]: the state of the pointer model after the history [h] under the pool
+    behaviour [ch]; [open_iters h]: the iterators [h] leaves open. *)
+From Coq Require Import List ZArith Arith Bool.
+From GL Require Import lib.IMapBase model.IMap model.IMapCost model.IMapLRU model.legacy.IMapLRULegacy
+  proofs.C11_Chain proofs.C11_LRU proofs.C11_Legacy proofs.C11_Cost.
+Import ListNotations.
+Open Scope Z_scope.
+
+(** * The map: reachable nodes = live entries + sentinel + entries pinned by open iterators *)
+
+Theorem C11_chain_length : forall h ch, wf_hist h ->
+  length (i_chain (reach ch h)) = (i_len (reach ch h) + 1 + count_deleted (reach ch h))%nat.
+Proof. exact chain_length. Qed.
+Print Assumptions C11_chain_length.
+
+Theorem C11_pinned_le_iters : forall h ch, wf_hist h ->
+  (count_deleted (reach ch h) <= length (iters (reach ch h)))%nat.
+Proof. exact pinned_le_iters. Qed.
+Print Assumptions C11_pinned_le_iters.
+
+(* every pinned node is the node some open iterator points to *)
+Theorem C11_pinned_referenced : forall h ch, wf_hist h -> forall x n,
+  In x (i_chain (reach ch h)) -> nth_error (heap_of (reach ch h)) x = Some n -> n_st n = StDeleted ->
+  1 <= n_ref n /\ exists i, In (i, x) (iters (reach ch h)) /\ In i (open_iters h).
+Proof. exact pinned_referenced. Qed.
+Print Assumptions C11_pinned_referenced.
+
+(* head is the first node of the walk, head.prev is nil, every node is linked back by its
+   successor and the walk ends at last, the only sentinel *)
+Theorem C11_head_on_chain : forall h ch, wf_hist h ->
+  hd_error (i_chain (reach ch h)) = Some (head (reach ch h)) /\ head_ok (reach ch h) = true.
+Proof. exact head_on_chain. Qed.
+Print Assumptions C11_head_on_chain.
+
+Theorem C11_refs_are_iters : forall h ch, wf_hist h ->
+  sum_ref (reach ch h) = Z.of_nat (length (iters (reach ch h))).
+Proof. exact refs_are_iters. Qed.
+Print Assumptions C11_refs_are_iters.
+
+Theorem C11_closed_no_garbage : forall h ch, wf_hist h -> open_iters h = [] ->
+  iters (reach ch h) = [] /\ count_deleted (reach ch h) = 0%nat /\
+  length (i_chain (reach ch h)) = (i_len (reach ch h) + 1)%nat.
+Proof. exact closed_no_garbage. Qed.
+Print Assumptions C11_closed_no_garbage.
+
+(** three iterators, two of them parked on removed entries; then all closed *)
+Definition C11_ex_h : list op :=
+  [OAdd 1 11; OAdd 2 12; OAdd 3 13; ONewIter 7; ONewIter 8; ONext 8; ORemove 1; ORemove 2; OAdd 4 14;
+   ORemove 3; ONewIter 9].
+
+Example C11_ex_pinned :
+  wf_hist C11_ex_h /\ open_iters C11_ex_h = [9; 8; 7] /\
+  let s := reach always_reuse C11_ex_h in
+  length (i_chain s) = 4%nat /\ i_len s = 1%nat /\ count_deleted s = 2%nat /\ length (iters s) = 3%nat /\
+  sum_ref s = 3 /\ head_ok s = true.
+Proof. vm_compute. repeat split; reflexivity. Qed.
+
+Example C11_ex_closed :
+  let h := C11_ex_h ++ [OClose 7; OClose 8; OClose 9] in
+  wf_hist h /\ open_iters h = [] /\
+  length (i_chain (reach always_fresh h)) = 2%nat /\ i_len (reach always_fresh h) = 1%nat.
+Proof. vm_compute. repeat split; reflexivity. Qed.
+
+(** * The cost of First: one loop iteration (node examined) per unit of fuel; 1 + pinned suffice
+
+    [i_first_f f1 f2]: First with [f1] units of fuel for the loop of [Map.next] inside
+    getValue and [f2] for the one that moves the iterator on (model/IMap.v gives both
+    "allocated nodes + 1"); the loop is the same function [i_next]. *)
+
+Theorem C11_first_cost : forall h ch, wf_hist h ->
+  exists f1 f2, (f1 + f2 <= 1 + count_deleted (reach ch h))%nat /\
+    i_first_f f1 f2 (reach ch h) = i_first (reach ch h) /\
+    exists r, i_first (reach ch h) = Ok r.
+Proof. exact first_cost. Qed.
+Print Assumptions C11_first_cost.
+
+Theorem C11_closed_first_cost : forall h ch, wf_hist h -> open_iters h = [] ->
+  i_first_f 0 1 (reach ch h) = i_first (reach ch h) /\ exists r, i_first (reach ch h) = Ok r.
+Proof. exact closed_first_cost. Qed.
+Print Assumptions C11_closed_first_cost.
+
+(** in the state of [C11_ex_pinned] First walks over the two pinned entries: 2 + 1 units are
+    needed (= 1 + pinned: the bound is tight) and enough *)
+Example C11_ex_first_cost :
+  let s := reach always_reuse C11_ex_h in
+  i_first_f 2 1 s = i_first s /\ i_first_f 1 1 s = NoFuel /\ i_first_f 2 0 s = NoFuel /\
+  option_map snd (match i_first s with Ok r => Some r | _ => None end) = Some (OutFirst (Some 4)).
+Proof. vm_compute. repeat split; reflexivity. Qed.
+
+(** * The cache over the pointer map: after every operation of every history
+
+    [lru_states ch cap ops]: the result and the state after each operation of [ops], from the
+    empty cache of capacity [cap]. *)
+
+Theorem C11_lru_no_open_iters : forall cap ch ops r, In r (lru_states ch cap ops) ->
+  iters (l_map (snd r)) = [] /\ count_deleted (l_map (snd r)) = 0%nat /\ fst r <> CStop.
+Proof. exact lru_no_open_iters. Qed.
+Print Assumptions C11_lru_no_open_iters.
+
+Theorem C11_lru_retention : forall cap ch ops r, In r (lru_states ch cap ops) ->
+  (length (i_chain (l_map (snd r))) <= cap + 1)%nat.
+Proof. exact lru_retention. Qed.
+Print Assumptions C11_lru_retention.
+
+Theorem C11_lru_exact : forall cap ch ops r, In r (lru_states ch cap ops) ->
+  length (i_chain (l_map (snd r))) = (i_len (l_map (snd r)) + 1)%nat /\
+  (i_len (l_map (snd r)) <= cap)%nat /\ head_ok (l_map (snd r)) = true.
+Proof. exact lru_exact. Qed.
+Print Assumptions C11_lru_exact.
+
+Definition C11_ex_ops : list cop :=
+  [CGetOrCreate 1 10 true; CGetOrCreate 2 20 true; CGetOrCreate 1 11 true; CGetOrCreate 3 30 true;
+   CGetOrCreate 4 40 false; CRemove 2; CClear; CGetOrCreate 5 50 true; CClear; CClear; CGetOrCreate 1 12 true].
+
+Example C11_ex_lru :
+  map (fun r => (fst r, length (i_chain (l_map (snd r))))) (lru_states always_reuse 2 C11_ex_ops) =
+  [(CMiss 10 None, 2%nat); (CMiss 20 None, 3%nat); (CHit 10, 3%nat); (CMiss 30 (Some (2, 20)), 3%nat);
+   (CFail, 3%nat); (CRemoved false, 3%nat); (CCleared 2, 1%nat); (CMiss 50 None, 2%nat); (CCleared 1, 1%nat);
+   (CCleared 0, 1%nat); (CMiss 12 None, 2%nat)].
 Proof. vm_compute. reflexivity. Qed.
+
+(** * D2: Clear before the fix 103acbd never closes its iterator
+
+    [legacy_final ch cap ops]: the state of the pre-fix cache after [ops];
+    [leaks false ops]: the number of Clear calls in [ops] that follow a successful
+    GetOrCreate made since the previous Clear.  Each of them leaves one node behind for
+    ever, for every capacity and pool behaviour: the node count has no bound. *)
+
+Theorem C11_legacy_leaks_general : forall cap ch ops,
+  (leaks false ops <= length (i_chain (l_map (legacy_final ch cap ops))))%nat.
+Proof. exact legacy_leaks_general. Qed.
+Print Assumptions C11_legacy_leaks_general.
+
+Theorem C11_legacy_clear_leaks : forall cap ch k v n,
+  (n <= length (i_chain (l_map (legacy_final ch cap (leak_cycles k v n)))))%nat.
+Proof. exact legacy_clear_leaks. Qed.
+Print Assumptions C11_legacy_clear_leaks.
+
+Example C11_ex_legacy :
+  map (fun n => length (i_chain (l_map (legacy_final always_reuse 4 (leak_cycles 1 5 n))))) [0; 1; 2; 3; 6]%nat
+    = [1; 1; 2; 3; 6]%nat /\
+  leaks false C11_ex_ops = 2%nat /\
+  length (i_chain (l_map (legacy_final always_reuse 2 C11_ex_ops))) = 3%nat /\
+  (* the same operations on the repaired cache: 2 nodes *)
+  option_map (fun r => length (i_chain (l_map (snd r)))) (List.last (map Some (lru_states always_reuse 2 C11_ex_ops)) None)
+    = Some 2%nat.
+Proof. vm_compute. repeat split; reflexivity. Qed.
